@@ -75,7 +75,7 @@ def tg_op_cases(draw):
     pick = st.sampled_from(ts + [(x + y) / 2 for x, y in zip(ts, ts[1:])] + [spec["maxT"] + 1.0])
     kind = draw(st.sampled_from(["crop", "erase", "insert_space", "edit", "append", "merge", "new", "validate", "save_str",
                                  "queries", "add", "add", "remove", "rename", "rename", "replace", "replace",
-                                 "tier_insert", "tier_delete"]))
+                                 "tier_insert", "tier_insert", "tier_insert", "tier_delete"]))
     op = {"kind": kind}
     anyname = st.sampled_from(names + ["zz"])
     if kind in ("crop", "erase"):
